@@ -45,7 +45,13 @@ type TaskProg struct {
 	MergeDoc    []byte         `json:"merge_doc,omitempty"`
 	MergeReader string         `json:"merge_reader,omitempty"`
 	Writers     []string       `json:"writers,omitempty"`
+	// FileWrites: extensions written through the file helper Subtitles.Write into the scenario's directory
+	// (one directory shared by all tasks, distinct file names) and read back through OpenFile. Real OS, not simulated.
+	FileWrites []string `json:"file_writes,omitempty"`
 }
+
+// c20Dir is the directory file steps use; set before a scenario starts, read-only while tasks run.
+var c20Dir string
 
 // C20Scenario is one replayable case.
 type C20Scenario struct {
@@ -75,7 +81,10 @@ func installC20Env() {
 }
 
 // execTask runs a task program and returns its step records.
-func execTask(p TaskProg) (rec []string) {
+func execTask(p TaskProg) (rec []string) { return execTaskAt(p, "solo") }
+
+// execTaskAt runs a task program; tag makes the names of the files it writes unique within the scenario directory.
+func execTaskAt(p TaskProg, tag string) (rec []string) {
 	hook := func(kind string) {
 		switch kind {
 		case "read":
@@ -132,7 +141,56 @@ func execTask(p TaskProg) (rec []string) {
 			rec = append(rec, "write:"+wf+":input-modified")
 		}
 	}
+	for k, ext := range p.FileWrites {
+		if c20Dir == "" {
+			break
+		}
+		path := filepath.Join(c20Dir, fmt.Sprintf("%s-%d.%s", tag, k, ext))
+		err, pn := fileWrite(s, path)
+		switch {
+		case pn != "":
+			rec = append(rec, "file:"+ext+":panic")
+			continue
+		case err != nil:
+			rec = append(rec, "file:"+ext+":error")
+			continue
+		}
+		b, rerr := os.ReadFile(path)
+		if rerr != nil {
+			rec = append(rec, "file:"+ext+":unreadable")
+			continue
+		}
+		rec = append(rec, "file:"+ext+":ok:"+canon.HashBytes(b))
+		back, err, pn := fileOpen(path)
+		switch {
+		case pn != "":
+			rec = append(rec, "reopen:"+ext+":panic")
+		case err != nil:
+			rec = append(rec, "reopen:"+ext+":error")
+		default:
+			rec = append(rec, "reopen:"+ext+":ok:"+canon.Hash(back))
+		}
+	}
 	return rec
+}
+
+func fileWrite(s *astisub.Subtitles, path string) (err error, panicked string) {
+	defer func() {
+		if p := recover(); p != nil {
+			panicked = fmt.Sprint(p)
+		}
+	}()
+	return s.Write(path), ""
+}
+
+func fileOpen(path string) (s *astisub.Subtitles, err error, panicked string) {
+	defer func() {
+		if p := recover(); p != nil {
+			panicked = fmt.Sprint(p)
+		}
+	}()
+	s, err = astisub.OpenFile(path)
+	return
 }
 
 // ---- choosers --------------------------------------------------------------
@@ -204,6 +262,10 @@ type ScenarioResult struct {
 func runScenario(sc C20Scenario, siteFunc map[int]string) ScenarioResult {
 	var out ScenarioResult
 	root := prng.New(sc.Seed)
+	if dir, err := os.MkdirTemp("", "c20-files-"); err == nil {
+		c20Dir = dir
+		defer func() { c20Dir = ""; os.RemoveAll(dir) }()
+	}
 	if sc.Real {
 		return runScenarioReal(sc)
 	}
@@ -213,7 +275,8 @@ func runScenario(sc C20Scenario, siteFunc map[int]string) ScenarioResult {
 		var tasks []*sched.Task
 		for i, ti := range phase {
 			i, prog := i, sc.Tasks[ti]
-			tasks = append(tasks, &sched.Task{ID: i, Body: func(t *sched.Task) { pr.Records[i] = execTask(prog) }})
+			tag := fmt.Sprintf("p%d-t%d", pi, i)
+			tasks = append(tasks, &sched.Task{ID: i, Body: func(t *sched.Task) { pr.Records[i] = execTaskAt(prog, tag) }})
 		}
 		var ch sched.Chooser
 		if pi < len(sc.Decisions) && sc.Decisions[pi] != nil {
@@ -267,7 +330,11 @@ func runScenarioReal(sc C20Scenario) ScenarioResult {
 	if sc.Procs > 0 {
 		defer runtime.GOMAXPROCS(runtime.GOMAXPROCS(sc.Procs))
 	}
-	for _, phase := range sc.Phases {
+	if dir, err := os.MkdirTemp("", "c20-files-"); err == nil {
+		c20Dir = dir
+		defer func() { c20Dir = ""; os.RemoveAll(dir) }()
+	}
+	for pi, phase := range sc.Phases {
 		var pr PhaseResult
 		pr.Records = make([][]string, len(phase))
 		var wg sync.WaitGroup
@@ -277,7 +344,7 @@ func runScenarioReal(sc C20Scenario) ScenarioResult {
 			go func(i int, prog TaskProg) {
 				defer wg.Done()
 				<-start
-				pr.Records[i] = execTask(prog)
+				pr.Records[i] = execTaskAt(prog, fmt.Sprintf("p%d-t%d", pi, i))
 			}(i, sc.Tasks[ti])
 		}
 		close(start)
@@ -338,6 +405,10 @@ func c20Child(cfg Config, kind string, raw []byte) int {
 	var resp c20Resp
 	switch kind {
 	case "c20-solo":
+		if dir, err := os.MkdirTemp("", "c20-files-"); err == nil {
+			c20Dir = dir
+			defer os.RemoveAll(dir)
+		}
 		resp.Records = execTask(*req.Task)
 	case "c20-run":
 		sf := loadSiteFuncs(cfg.Sites)
@@ -385,6 +456,9 @@ func runChildProc(cfg Config, bin string, req c20Req, timeout time.Duration) (c2
 	cmd.Stdout, cmd.Stderr = &stdout, &stderr
 	// one P: only one task is runnable at a time anyway, and per-P caches (sync.Pool) then behave the same in every run
 	cmd.Env = append(os.Environ(), "GORACE=halt_on_error=0 history_size=4", "GOMAXPROCS=1")
+	if cfg.Scratch != "" {
+		cmd.Env = append(cmd.Env, "TMPDIR="+cfg.Scratch) // the scenario directories of the file steps live (briefly) in the check's scratch directory
+	}
 	if err := cmd.Start(); err != nil {
 		return resp, "", err
 	}
@@ -540,6 +614,10 @@ func buildDocPool(cfg Config) (*docPool, error) {
 	for i := 0; i < 3; i++ {
 		p.docs = append(p.docs, corpus.GenTS(root.Derive("c20-ts", i), i))
 	}
+	// stream segments without PAT/PMT: PID auto-detection must fail on them whatever was read before
+	for _, c := range []int{1, 7} {
+		p.docs = append(p.docs, corpus.Doc{Name: fmt.Sprintf("ts-nopmt-charset%d", c), Format: "ts", Data: corpus.StripTSTables(corpus.FixedTS(c, nationalText, 2))})
+	}
 	for _, f := range []string{"srt", "vtt", "ssa", "ttml", "stl"} {
 		for i := 0; i < 4; i++ {
 			p.docs = append(p.docs, corpus.Gen(f, root.Derive("c20-"+f, i), i))
@@ -559,7 +637,7 @@ func buildDocPool(cfg Config) (*docPool, error) {
 
 func genOps(r *prng.R) []api.Op {
 	var ops []api.Op
-	n := r.Intn(4)
+	n := r.Intn(6)
 	ms := int64(time.Millisecond)
 	for i := 0; i < n; i++ {
 		switch r.Intn(9) {
@@ -578,7 +656,8 @@ func genOps(r *prng.R) []api.Op {
 		case 6:
 			ops = append(ops, api.Op{Name: "removestyling"})
 		case 7:
-			ops = append(ops, api.Op{Name: "forceduration", D: int64(r.Range(1000, 20000)) * ms, Flag: r.Bool(0.5)})
+			// shorter and (much) longer than the documents, so that both the trimming and the padding path run
+			ops = append(ops, api.Op{Name: "forceduration", D: int64(r.PickInt(1000, 20000, 600000, 3*3600000)) * ms, Flag: r.Bool(0.7)})
 		case 8:
 			ops = append(ops, api.Op{Name: "linear", D: 1000 * ms, D2: int64(r.Range(900, 1100)) * ms, D3: 5000 * ms, D4: int64(r.Range(4900, 5200)) * ms})
 		}
@@ -591,7 +670,7 @@ func genTask(r *prng.R, pool *docPool, idx int, theme string) TaskProg {
 	if r.Bool(0.35) { // bias towards the teletext charset documents: the shared tables with conflicting patches
 		d = pool.docs[r.Intn(8)]
 	}
-	if theme != "" && theme != "writers" { // themed scenario: every task works on the same format (different documents)
+	if theme != "" && theme != "writers" && theme != "files" { // themed scenario: every task works on the same format (different documents)
 		var same []corpus.Doc
 		for _, x := range pool.docs {
 			if x.Format == theme {
@@ -622,6 +701,11 @@ func genTask(r *prng.R, pool *docPool, idx int, theme string) TaskProg {
 	for i := 0; i < nw; i++ {
 		t.Writers = append(t.Writers, api.WriterFormats[r.Intn(len(api.WriterFormats))])
 	}
+	if r.Bool(0.3) || theme == "files" {
+		for i := r.Range(1, 2); i > 0; i-- {
+			t.FileWrites = append(t.FileWrites, r.Pick("srt", "vtt", "ssa", "ass", "stl", "ttml"))
+		}
+	}
 	return t
 }
 
@@ -634,13 +718,17 @@ func genScenario(root *prng.R, pool *docPool, j int, lim c20Limits) C20Scenario 
 	sc := C20Scenario{Seed: r.Uint64(), Policy: r.Pick("uniform", "rr", "burst", "starve0"), Mean: float64(r.PickInt(1, 2, 5, 20, 100, 1000))}
 	// swarm: a third of the scenarios are themed (all tasks on one format, so that the same functions and
 	// tables are in use by several tasks at once), some are "writer storms" (all tasks write the same formats)
-	theme := r.Pick("", "", "", "", "ts", "stl", "vtt", "srt", "ssa", "ttml", "writers", "writers")
+	theme := r.Pick("", "", "", "", "ts", "ts", "stl", "vtt", "srt", "ssa", "ttml", "writers", "writers", "files")
+	fileExt := r.Pick("srt", "vtt", "ssa", "stl", "ttml")
 	storm := []string{api.WriterFormats[r.Intn(len(api.WriterFormats))], api.WriterFormats[r.Intn(len(api.WriterFormats))]}
 	var all []int
 	for i := 0; i < n; i++ {
 		t := genTask(r, pool, i, theme)
 		if theme == "writers" {
 			t.Writers = storm
+		}
+		if theme == "files" { // every task uses the file helpers with the same extension in the same directory
+			t.FileWrites = []string{fileExt, fileExt}
 		}
 		sc.Tasks = append(sc.Tasks, t)
 		all = append(all, i)
